@@ -41,11 +41,7 @@ MinTs(Files, u) == SetMin(UNION { { r.ts : r \in Image(Files[k], u) } : k \in DO
 (***************************************************************************)
 (* C02: links.  R is the set of rows (of one rank).                        *)
 (***************************************************************************)
-LinkOf(R, e) == IF e.corr < 0 THEN -1
-                ELSE LET P == Partners(R, e)
-                     IN IF P = {} THEN 0
-                        ELSE IF Cardinality(P) = 1 THEN (CHOOSE p \in P : TRUE).id
-                        ELSE -2      \* ambiguous: excluded by WellFormed
+\* LinkOf(R, e) is defined in TraceModel.tla (also used to check the links other analyses take as input)
 
 (***************************************************************************)
 (* C12: iteration numbers and trimming.                                    *)
